@@ -1,6 +1,7 @@
 package ws
 
 import (
+	"bytes"
 	"encoding/binary"
 	"fmt"
 	"io"
@@ -99,13 +100,33 @@ func ReadFrame(r io.Reader) (f Frame, err error) {
 	}
 
 	if f.Header.Length > 0 {
-		// int(f.Header.Length) is safe here cause we have
-		// checked it for overflow above in ReadHeader.
-		f.Payload = make([]byte, int(f.Header.Length))
-		_, err = io.ReadFull(r, f.Payload)
+		f.Payload, err = readPayload(r, f.Header.Length)
 	}
 
 	return f, err
+}
+
+// maxPayloadPrealloc is the biggest payload that is allocated at once, trusting
+// the length announced by a frame header.
+const maxPayloadPrealloc = 1 << 20
+
+// readPayload reads n bytes of frame payload from r.
+//
+// Bigger payloads are read in chunks, such that the memory allocated is
+// proportional to the number of bytes actually received, not to the length a
+// (possibly hostile) peer has announced.
+func readPayload(r io.Reader, n int64) (p []byte, err error) {
+	if n <= maxPayloadPrealloc {
+		p = make([]byte, int(n))
+		_, err = io.ReadFull(r, p)
+		return p, err
+	}
+	var buf bytes.Buffer
+	m, err := io.CopyN(&buf, r, n)
+	if err == io.EOF && m > 0 {
+		err = io.ErrUnexpectedEOF
+	}
+	return buf.Bytes(), err
 }
 
 // MustReadFrame is like ReadFrame but panics if frame can not be read.
